@@ -55,3 +55,24 @@ Example c04_example :
      [ONote NClosed 1]; [ONote NGone 1]; [ONote NConnected 3]] /\
   map o_ev (snd (run ops)) = [[]; [EConn]; []; []; [EDisc]; []].
 Proof. vm_compute. split; reflexivity. Qed.
+
+From CRS Require Import Model.ProxyOut Proofs.ProxyOutProofs.
+(** "Nothing keeps running", over the fine-grained model of proxyOut: in ANY
+    state, once the context is cancelled the reader goroutine and the
+    forwarding loop can each leave within two of their own steps, whatever the
+    queues hold; a stream that ended by itself has no reader left.  The reader
+    before the repair (fix: a7c6715) is refuted: after a flood into a stalled
+    terminal and a cancel it stays in its error send for ever. *)
+Theorem c04_reader_leaves : forall cap s, cancelled s = true ->
+  rd (pnext cap (pnext cap s PReaderQuit) PReadCancelled) = RDone.
+Proof. exact reader_leaves. Qed.
+Theorem c04_forwarder_leaves : forall cap s, cancelled s = true -> fw_done (fw s) = false ->
+  fw_done (fw (pnext cap (pnext cap s PDrop) PSelCancel)) = true.
+Proof. exact forwarder_leaves. Qed.
+Theorem c04_self_end_no_reader : forall cap reads es,
+  let s := prun cap (pinit reads) es in fw s = FEndSelf \/ fw s = FEndClosed -> rd s = RDone /\ q s = [].
+Proof. exact self_end_no_reader. Qed.
+Theorem c04_old_reader_leaks_refuted :
+  let s := fold_left (pnext_old 0) leak_run (pinit leak_reads) in
+  cancelled s = true /\ fw_done (fw s) = true /\ forall es, rd (fold_left (pnext_old 0) es s) = RErr.
+Proof. exact old_reader_leaks. Qed.
